@@ -7,7 +7,8 @@ from harness.timebase import TB, REGIMES
 PROP = "C03"
 CHECK_MODULE = "Check.C03"
 SHARD = 500
-RULE = ("triples (a,b,c) of segments in ticks under regimes K0 (eps=0), K4 (eps=4 ticks of 2^-22 s, default "
+RULE = ("[also: five one-tick neighbours of every first operand (never equal, strictly ordered); copies translated by up to 1.7e9 s] " +
+        "triples (a,b,c) of segments in ticks under regimes K0 (eps=0), K4 (eps=4 ticks of 2^-22 s, default "
         "1e-6 precision) and K1 (set_precision(0), eps=1): all pairs over a 6-point grid exhaustively (empty and "
         "inverted segments included) with c cycling over the grid, plus random wide-range triples whose bounds "
         "are tied to each other by offsets around eps; overlaps(t) also at the quarter ticks around both bounds of a; copies translated 2 h, 28 h, 3 d or -8 h 20 min from the origin; non-trivial = a and b both non-empty and not equal")
